@@ -18,7 +18,9 @@ package c05
 // then offers small blocks in a chosen mempool order: stranger-signed transactions naming the victim (they take a batch
 // verifier slot before the signer rule turns them away), forged ones with the victim's public key, honest neighbours -
 // the slot / transaction bookkeeping of the batch verification must blame the right transaction. A candidate set the
-// proposer cannot build any block from is retried in halves (counted) instead of ending the case.
+// proposer cannot build any block from is retried in halves (counted) instead of ending the case. Path (f) puts an
+// already-verified (cached) honest ed25519 signature into each of the 8 lists of the batch verifier and forged
+// transactions of every other key type behind them in every list.
 //
 // Oracles: (1) the reference refAuthorised(msg, signer, state) (state_test.go), written from the property statement,
 // decides for every transaction the proposer put into its block - walking the block in order, advancing the reference's
@@ -963,7 +965,7 @@ func (e *env) tryBlock(path string, forged, honest []*cand, extra [][]byte) bool
 	}
 	txs = append(txs, extra...)
 	all := txs
-	if path != "e" { // path (e) relies on the order in which the mempool receives equal-fee transactions
+	if path != "e" && path != "f" { // paths (e), (f) choose the order themselves
 		e.rng.Shuffle(len(txs), func(i, j int) { txs[i], txs[j] = txs[j], txs[i] })
 	}
 	ch := e.ch
@@ -1014,7 +1016,7 @@ func (e *env) tryBlock(path string, forged, honest []*cand, extra [][]byte) bool
 			bads = append(bads, c)
 		}
 	}
-	if len(bads) > 0 && path != "e" {
+	if len(bads) > 0 && path != "e" && path != "f" {
 		c := bads[e.rng.Intn(len(bads))]
 		blk := new(lib.Block)
 		if er := lib.Unmarshal(p.BlockBytes, blk); er != nil {
@@ -1253,6 +1255,61 @@ func (e *env) pathE(idx int) {
 			e.block("e", forged, honest, nil)
 		}
 	}
+}
+
+// pathF: warm-cache shards. The batch verifier spreads the signatures of a block over 8 lists (slot number mod 8) and
+// each list handles its ed25519 signatures first, skipping those the process-wide signature cache already knows. Here
+// every list gets exactly such an ed25519 signature - honest neighbour sends the node has verified once already (CheckTx
+// alone, as when a transaction is admitted before the block is built) - and, behind them, forged transactions of every
+// other key type (the owner's BLS / secp256k1 / eth-secp256k1 / multisig public key with a signature made by an unrelated
+// key: sends debiting the victim, a pause and an edit-stake of the victim's validator) at every list position. Whatever
+// the cache says about the neighbours, the other signatures of the same list still have to be verified.
+func (e *env) pathF(idx int) {
+	if e.stop {
+		return
+	}
+	kinds := []string{kBLS, kSecp, kEth, kMulti}
+	var forged, honest []*cand
+	lead := 8
+	if core.Thorough() {
+		lead = 8 * (1 + idx%2) // one or two cached ed25519 signatures per list
+	}
+	total := lead + 8*len(kinds) + 2*len(kinds)
+	pos := 0
+	fee := func() uint64 { pos++; return e.fee(fsm.MessageSendName) + uint64(total-pos+1)*10 }
+	q := e.nb[kEd]
+	for i := 0; i < lead; i++ {
+		tx := e.newTx(&fsm.MessageSend{FromAddress: q.addr(), ToAddress: freshAddr(fmt.Sprint(e.name, "/nbf/", e.next())), Amount: e.uniq()}, "")
+		tx.Fee = fee()
+		signTx(tx, q)
+		c := e.mk(fsm.MessageSendName, kEd, "owner", "none", tx, q.addr())
+		c.must = true
+		honest = append(honest, c)
+	}
+	forge := func(mt, k string, msg lib.MessageI) {
+		tx := e.newTx(msg, "")
+		tx.Fee = fee()
+		signTx(tx, e.stranger[k])
+		tx.Signature.PublicKey = e.victim[k].pub()
+		forged = append(forged, e.mk(mt, k, "stranger", "public-key-replaced-by-owner", tx, nil))
+	}
+	for i := 0; i < 8*len(kinds); i++ { // consecutive slots: every key type lands in every list
+		k := kinds[(i+i/8)%len(kinds)]
+		forge(fsm.MessageSendName, k, &fsm.MessageSend{FromAddress: e.victim[k].addr(), ToAddress: e.stranger[k].addr(), Amount: e.uniq()})
+	}
+	for _, k := range kinds {
+		forge(fsm.MessagePauseName, k, &fsm.MessagePause{Address: e.vVal[k].op.addr()})
+		forge(fsm.MessageEditStakeName, k, e.content(fsm.MessageEditStakeName, e.victimTarget(k), e.stranger[k]))
+	}
+	crypto.SignatureCache.Reset()
+	e.pathA(forged)
+	crypto.SignatureCache.Reset()
+	e.pathA(honest) // verified once, not in any block yet: their signatures are in the cache from here on
+	e.run.Count("path_f_warm_cache_shard_blocks", 1)
+	for i, c := range forged {
+		e.run.Distinct(fmt.Sprintf("path-f|%s|%s|list%d", c.mt, c.kind, (lead+i)%8))
+	}
+	e.block("f", forged, honest, nil)
 }
 
 // cacheProbes: the signature cache is keyed by publicKey || message || signature without length prefixes. For each key type
@@ -1511,6 +1568,7 @@ func runCase(t *testing.T, run *core.Run, name string, idx int, rng *rand.Rand) 
 		e.round(r, forged)
 	}
 	e.pathE(idx)
+	e.pathF(idx)
 	if !e.stop {
 		e.cacheProbes()
 	}
@@ -1522,7 +1580,7 @@ func TestCheck(t *testing.T) {
 	run := core.Start(t, "C05", "exploration",
 		"candidates = (message type of 16) x (key type: ed25519, secp256k1, eth-secp256k1, BLS, 2-of-3 BLS multisig, RLP, RLP.V2) x (who signed: owner / operator / output / previous output / stranger / "+
 			"address-prefix twin / proposer / committee member) x (tampering: none, each signed transaction field, payload fields, claimed owner, payload type, lifted signature, replaced public key, multisig "+
-			"threshold games, wrapper not re-deriving), each through (a) CheckTx alone (b) block with cold signature cache (c) block with warm cache (d) block whose ed25519 batch fails (e) small blocks in a chosen order U(nauthorised, validly signed) / F(orged with the owner's key) / N(eighbour); "+
+			"threshold games, wrapper not re-deriving), each through (a) CheckTx alone (b) block with cold signature cache (c) block with warm cache (d) block whose ed25519 batch fails (e) small blocks in a chosen order U(nauthorised, validly signed) / F(orged with the owner's key) / N(eighbour) (f) a block whose 8 batch lists each start with cached ed25519 signatures followed by forged non-ed25519 ones; "+
 			"distinct_nontrivial = distinct (message type, key type, signer relation, tampering, path) whose CheckTx verdict was acceptance or a signature / signer error (i.e. not turned away earlier)")
 	defer run.Finish()
 	run.MinDistinct = 400
